@@ -1,9 +1,14 @@
 import MythVerif.Model.WsQueue
 /-! x86-TSO model of the work-stealing queue: owner `push` / `pop` (all paths: lock-free fast
-    path, locked slow path, reset) and owner `put` (base-side insert under the lock) against any
-    number of other participants running `myth_queue_take`, `myth_queue_trypass` and
-    `myth_queue_peek` (lock-free loads of `base`, `top` and one slot; the value is a hint to the
-    caller and nothing is removed).
+    path, locked slow path with the invalidation of the steal cache, reset) and owner `put`
+    (base-side insert under the lock), both with re-centring, against any number of other
+    participants running `myth_queue_take`, `myth_queue_trypass`, `myth_queue_peek` (lock-free
+    loads of `base`, `top` and one slot; the value is a hint to the caller and nothing is removed),
+    `myth_wsapi_runqueue_take` (trylock, decision callback: label `tDecide`; a decline rolls `base`
+    back) and the caching `myth_wsapi_runqueue_peek` (`/repo/src/myth_if_native.c`).  Of the steal
+    cache only its pointer word `wc->ptr` is modelled (memory word `cache`, buffer entry
+    `Sto.cache`), as in the SC model: `seq`, `size` and `data` carry the advisory copy of the hint
+    and do not influence the queue.
 
     Machine (DESIGN 3.2 / A.3): one FIFO store buffer per participant; a store appends to the
     own buffer; a load forwards from the newest own buffered store to that location, else reads
@@ -46,8 +51,7 @@ import MythVerif.Model.WsQueue
     `stuck` / `stuckL` are the two `abort()`s ("Runqueue overflow": `top == size ∧ base == 0`),
     reached holding the lock.
 
-    Not modelled here (the `_partial` in the theorem name): the wsapi functions, the steal
-    cache, clear. -/
+    Not modelled here (the `_partial` in the theorem name): clear. -/
 namespace MythVerif.WsqTso
 open MythVerif.Wsq
 
@@ -56,10 +60,12 @@ structure FenceCfg where
   popFence : Bool    -- myth_wsqueue_rwbarrier after `q->top = top` in pop
   takeFence : Bool   -- myth_wsqueue_rwbarrier after `q->base = b+1` in take
   unlockFence : Bool -- myth_rwbarrier before the releasing store
+  wtakeFence : Bool  -- myth_wsqueue_rwbarrier after `q->base = b+1` in myth_wsapi_runqueue_take
+  wpeekFence : Bool  -- myth_wsqueue_rwbarrier after `q->base = b+1` in myth_wsapi_runqueue_peek
   deriving DecidableEq, Repr
 
 /-- the fences of the source code -/
-def FenceCfg.code : FenceCfg := ⟨true, true, true, true⟩
+def FenceCfg.code : FenceCfg := ⟨true, true, true, true, true, true⟩
 
 inductive Sto where
   | top (v : Int)
@@ -68,6 +74,7 @@ inductive Sto where
   | unlock
   | baseI (v : Int) (e : Elem)       -- store of `base` by put / trypass (ghost tag: the element inserted)
   | shift (lo hi off : Int)          -- memmove(&ptr[lo+off], &ptr[lo], hi-lo) of a re-centring
+  | cache (x : Option Elem)          -- wc->ptr = x
   deriving DecidableEq, Repr
 
 inductive OPc where
@@ -92,6 +99,8 @@ inductive OPc where
   | po4 (t : Int)                    -- base = q->base ; base <= top ?
   | po5 (t : Int) (x : Elem)         -- ret = q->ptr[top]
   | po5b (t : Int) (r : Option Elem) -- q->ptr[top] = NULL
+  | po5c (t : Int) (r : Option Elem) -- if (top <= base)
+  | po5d (r : Option Elem)           -- wc->ptr = NULL
   | po6 (r : Option Elem)            -- unlock
   | po7                              -- q->top = size/2
   | po8                              -- q->base = size/2
@@ -130,6 +139,31 @@ inductive TPc where
   | pk1                              -- b = q->base            (no lock)
   | pk2 (b : Int)                    -- top = q->top ; b < top ?
   | pk3 (b : Int)                    -- rbarrier ; ret = q->ptr[b]   (returned as a hint, nothing removed)
+  -- myth_wsapi_runqueue_take
+  | wq0 | wq1 (t : Int)
+  | wtl                              -- trylock CAS (failure returns NULL)
+  | wk1                              -- b = q->base ; q->base = b+1
+  | wkf (b : Int)                    -- rwbarrier
+  | wk2 (b : Int)                    -- top = q->top ; b < top ?
+  | wk3 (b : Int)                    -- ret = q->ptr[b]
+  | wkd (b : Int) (r : Option Elem)  -- decidefn(ret, udata)              (LP on accept)
+  | wk4 (r : Option Elem)            -- wc->ptr = NULL
+  | wk4u (r : Option Elem)           -- unlock ; return ret
+  | wk5 (b : Int)                    -- q->base = b
+  | wk6                              -- unlock ; return NULL
+  -- myth_wsapi_runqueue_peek (pointer word of the steal cache)
+  | vq0 | vq1 (t : Int)
+  | vc0                              -- if (!wc->ptr)
+  | vl                               -- trylock CAS (failure: goto start)
+  | vc1                              -- if (!wc->ptr) again, under the lock
+  | vk1                              -- b = q->base ; q->base = b+1
+  | vkf (b : Int)                    -- rwbarrier
+  | vk2 (b : Int)                    -- top = q->top ; b < top ?
+  | vk3 (b : Int)                    -- th = q->ptr[b]
+  | vk4 (b : Int) (r : Option Elem)  -- wc->ptr = th
+  | vk5 (b : Int)                    -- q->base = b
+  | vu                               -- unlock
+  | vr                               -- ret = wc->ptr ; return   (a hint, not recorded)
   deriving DecidableEq, Repr
 
 structure St where
@@ -139,6 +173,7 @@ structure St where
   ptr  : Int → Option Elem
   size : Int
   lock : Holder
+  cache : Option Elem
   bufO : List Sto
   bufT : Pid → List Sto
   opc  : OPc
@@ -155,7 +190,7 @@ structure St where
   sh   : Int        -- offset of a buffered (not yet drained) shift entry, else 0
 
 def init (cfg : FenceCfg) (n : Int) : St :=
-  { cfg := cfg, top := n / 2, base := n / 2, ptr := fun _ => none, size := n, lock := .free,
+  { cfg := cfg, top := n / 2, base := n / 2, ptr := fun _ => none, size := n, lock := .free, cache := none,
     bufO := [], bufT := fun _ => [], opc := .idle, tpc := fun _ => .idle,
     A := [], lb := n / 2, lt := n / 2, tr := false, flO := none, flT := none, retd := [], ins := [],
     sh := 0 }
@@ -169,6 +204,7 @@ def viewTop : List Sto → Int → Int
   | .unlock :: r, m => viewTop r m
   | .baseI _ _ :: r, m => viewTop r m
   | .shift _ _ _ :: r, m => viewTop r m
+  | .cache _ :: r, m => viewTop r m
 def viewBase : List Sto → Int → Int
   | [], m => m
   | .base v :: r, _ => viewBase r v
@@ -177,6 +213,7 @@ def viewBase : List Sto → Int → Int
   | .unlock :: r, m => viewBase r m
   | .baseI v _ :: r, _ => viewBase r v
   | .shift _ _ _ :: r, m => viewBase r m
+  | .cache _ :: r, m => viewBase r m
 def viewPtr : List Sto → (Int → Option Elem) → Int → Option Elem
   | [], m, i => m i
   | .ptr j x :: r, m, i => viewPtr r (upd m j x) i
@@ -185,6 +222,16 @@ def viewPtr : List Sto → (Int → Option Elem) → Int → Option Elem
   | .unlock :: r, m, i => viewPtr r m i
   | .baseI _ _ :: r, m, i => viewPtr r m i
   | .shift lo hi off :: r, m, i => viewPtr r (shiftPtr m lo hi off) i
+  | .cache _ :: r, m, i => viewPtr r m i
+def viewCache : List Sto → Option Elem → Option Elem
+  | [], m => m
+  | .cache x :: r, _ => viewCache r x
+  | .top _ :: r, m => viewCache r m
+  | .base _ :: r, m => viewCache r m
+  | .ptr _ _ :: r, m => viewCache r m
+  | .unlock :: r, m => viewCache r m
+  | .baseI _ _ :: r, m => viewCache r m
+  | .shift _ _ _ :: r, m => viewCache r m
 
 /-- drain one store into memory (ghost `tr` follows the memory value of `base`; the drain of an
     inserting `base` store is the linearization point of put / trypass; the drain of a shift moves
@@ -196,10 +243,13 @@ def applySto (s : St) : Sto → St
   | .unlock => { s with lock := .free }
   | .baseI v e => { s with base := v, tr := false, A := e :: s.A, lb := s.lb - 1, ins := e :: s.ins }
   | .shift lo hi off => { s with ptr := shiftPtr s.ptr lo hi off, lb := s.lb + off, lt := s.lt + off, sh := 0 }
+  | .cache x => { s with cache := x }
 
 inductive Lbl where
   | oPush (e : Elem) | oPop | oPut (e : Elem) | o | flushO
-  | tTake (p : Pid) | tPass (p : Pid) (e : Elem) | tPeek (p : Pid) | t (p : Pid) | flushT (p : Pid)
+  | tTake (p : Pid) | tPass (p : Pid) (e : Elem) | tPeek (p : Pid) | tWTake (p : Pid) | tWPeek (p : Pid)
+  | t (p : Pid) | flushT (p : Pid)
+  | tDecide (p : Pid) (accept : Bool)                       -- the decision callback returns
   deriving DecidableEq, Repr
 
 /-- fence: enabled on an empty buffer (or always, when that fence is switched off) -/
@@ -263,7 +313,9 @@ def stepO (s : St) : Option St :=
                 | none => some { s with opc := .po5 t 0 }      -- unreachable when the invariant holds
               else some { s with opc := .po7 }
   | .po5 t _ => some { s with opc := .po5b t (viewPtr s.bufO s.ptr t) }
-  | .po5b t r => some { s with bufO := s.bufO ++ [.ptr t none], opc := .po6 r }
+  | .po5b t r => some { s with bufO := s.bufO ++ [.ptr t none], opc := .po5c t r }
+  | .po5c t r => if t ≤ viewBase s.bufO s.base then some { s with opc := .po5d r } else some { s with opc := .po6 r }
+  | .po5d r => some { s with bufO := s.bufO ++ [.cache none], opc := .po6 r }
   | .po6 r => (releaseO s).map fun s' => { s' with opc := .idle, retd := retOpt s.retd r, flO := none }
   | .po7 => some { s with bufO := s.bufO ++ [.top (s.size / 2)], lt := s.size / 2, lb := s.size / 2, opc := .po8 }
   | .po8 => some { s with bufO := s.bufO ++ [.base (s.size / 2)], opc := .po9 }
@@ -330,6 +382,61 @@ def stepT (s : St) (p : Pid) : Option St :=
   | .pk2 b => if b < viewTop (s.bufT p) s.top then some { s with tpc := upd s.tpc p (.pk3 b) }
               else some { s with tpc := upd s.tpc p .idle }
   | .pk3 _ => some { s with tpc := upd s.tpc p .idle }
+  | .wq0 => some { s with tpc := upd s.tpc p (.wq1 (viewTop (s.bufT p) s.top)) }
+  | .wq1 t => if t - viewBase (s.bufT p) s.base ≤ 0 then some { s with tpc := upd s.tpc p .idle }
+              else some { s with tpc := upd s.tpc p .wtl }
+  | .wtl => if (s.bufT p).isEmpty then
+              match s.lock with
+              | .free => some { s with lock := .thief p, tpc := upd s.tpc p .wk1 }
+              | _ => some { s with tpc := upd s.tpc p .idle }         -- trylock failed: return NULL
+            else none
+  | .wk1 => let b := viewBase (s.bufT p) s.base
+            some { s with bufT := upd s.bufT p (s.bufT p ++ [.base (b + 1)]), tpc := upd s.tpc p (.wkf b) }
+  | .wkf b => if fenceOk s.cfg.wtakeFence (s.bufT p) then some { s with tpc := upd s.tpc p (.wk2 b) } else none
+  | .wk2 b => if b < viewTop (s.bufT p) s.top then some { s with tpc := upd s.tpc p (.wk3 b) }
+              else some { s with tpc := upd s.tpc p (.wk5 b) }
+  | .wk3 b => some { s with tpc := upd s.tpc p (.wkd b (viewPtr (s.bufT p) s.ptr b)) }
+  | .wkd _ _ => none                    -- waits for the callback's verdict (label `tDecide`)
+  | .wk4 r => some { s with bufT := upd s.bufT p (s.bufT p ++ [.cache none]), tpc := upd s.tpc p (.wk4u r) }
+  | .wk4u r => (releaseT s p).map fun s' =>
+                { s' with tpc := upd s.tpc p .idle, retd := retOpt s.retd r, flT := none }
+  | .wk5 b => some { s with bufT := upd s.bufT p (s.bufT p ++ [.base b]), tpc := upd s.tpc p .wk6 }
+  | .wk6 => (releaseT s p).map fun s' => { s' with tpc := upd s.tpc p .idle }
+  | .vq0 => some { s with tpc := upd s.tpc p (.vq1 (viewTop (s.bufT p) s.top)) }
+  | .vq1 t => if t - viewBase (s.bufT p) s.base ≤ 0 then some { s with tpc := upd s.tpc p .idle }
+              else some { s with tpc := upd s.tpc p .vc0 }
+  | .vc0 => match viewCache (s.bufT p) s.cache with
+    | some _ => some { s with tpc := upd s.tpc p .vr }
+    | none => some { s with tpc := upd s.tpc p .vl }
+  | .vl => if (s.bufT p).isEmpty then
+             match s.lock with
+             | .free => some { s with lock := .thief p, tpc := upd s.tpc p .vc1 }
+             | _ => some { s with tpc := upd s.tpc p .vq0 }           -- trylock failed: goto start
+           else none
+  | .vc1 => match viewCache (s.bufT p) s.cache with
+    | some _ => some { s with tpc := upd s.tpc p .vu }
+    | none => some { s with tpc := upd s.tpc p .vk1 }
+  | .vk1 => let b := viewBase (s.bufT p) s.base
+            some { s with bufT := upd s.bufT p (s.bufT p ++ [.base (b + 1)]), tpc := upd s.tpc p (.vkf b) }
+  | .vkf b => if fenceOk s.cfg.wpeekFence (s.bufT p) then some { s with tpc := upd s.tpc p (.vk2 b) } else none
+  | .vk2 b => if b < viewTop (s.bufT p) s.top then some { s with tpc := upd s.tpc p (.vk3 b) }
+              else some { s with tpc := upd s.tpc p (.vk5 b) }
+  | .vk3 b => some { s with tpc := upd s.tpc p (.vk4 b (viewPtr (s.bufT p) s.ptr b)) }
+  | .vk4 b r => some { s with bufT := upd s.bufT p (s.bufT p ++ [.cache r]), tpc := upd s.tpc p (.vk5 b) }
+  | .vk5 b => some { s with bufT := upd s.bufT p (s.bufT p ++ [.base b]), tpc := upd s.tpc p .vu }
+  | .vu => (releaseT s p).map fun s' => { s' with tpc := upd s.tpc p .vr }
+  | .vr => some { s with tpc := upd s.tpc p .idle }
+
+/-- the decision callback of `myth_wsapi_runqueue_take` returns `accept` -/
+def stepD (s : St) (p : Pid) (accept : Bool) : Option St :=
+  match s.tpc p with
+  | .wkd b r =>
+    if accept then
+      match s.A with
+      | x :: A' => some { s with tpc := upd s.tpc p (.wk4 r), A := A', lb := s.lb + 1, tr := false, flT := some x }
+      | [] => some { s with tpc := upd s.tpc p (.wk4 r) }             -- unreachable when the invariant holds
+    else some { s with tpc := upd s.tpc p (.wk5 b) }
+  | _ => none
 
 def step (s : St) : Lbl → Option St
   | .oPush e => match s.opc with
@@ -354,7 +461,14 @@ def step (s : St) : Lbl → Option St
   | .tPeek p => match s.tpc p with
     | .idle => some { s with tpc := upd s.tpc p .kq0 }
     | _ => none
+  | .tWTake p => match s.tpc p with
+    | .idle => some { s with tpc := upd s.tpc p .wq0 }
+    | _ => none
+  | .tWPeek p => match s.tpc p with
+    | .idle => some { s with tpc := upd s.tpc p .vq0 }
+    | _ => none
   | .t p => stepT s p
+  | .tDecide p a => stepD s p a
   | .flushT p => match s.bufT p with
     | st :: rest => some (applySto { s with bufT := upd s.bufT p rest } st)
     | [] => none
